@@ -148,6 +148,43 @@ class _Fail(Exception):
     pass
 
 
+def _raise_fail():
+    # one raise site only: Hypothesis distinguishes failures by the location
+    # the exception was raised at
+    raise _Fail()
+
+
+class CaseTimeout(BaseException):
+    """A single case exceeded its wall-clock allowance: inconclusive, the case
+    is skipped and counted (never a violation)."""
+
+
+class case_alarm:
+    def __init__(self, seconds):
+        self.seconds = seconds
+
+    def __enter__(self):
+        import signal
+        import threading
+
+        self.active = threading.current_thread() is threading.main_thread() and hasattr(signal, "setitimer")
+        if self.active:
+            def handler(signum, frame):
+                raise CaseTimeout()
+
+            self.old = signal.signal(signal.SIGALRM, handler)
+            signal.setitimer(signal.ITIMER_REAL, self.seconds)
+        return self
+
+    def __exit__(self, *exc):
+        import signal
+
+        if self.active:
+            signal.setitimer(signal.ITIMER_REAL, 0)
+            signal.signal(signal.SIGALRM, self.old)
+        return False
+
+
 def run_hypothesis_shard(mod, tier, seed, shard, nshards, state, sub=None):
     """Drive ``mod.strategy`` / ``mod.run_case`` with Hypothesis."""
     import hypothesis
@@ -157,6 +194,7 @@ def run_hypothesis_shard(mod, tier, seed, shard, nshards, state, sub=None):
     name = "" if sub is None else sub
     budget = mod.budget(tier) if sub is None else mod.budget(tier, sub)
     nex = max(1, budget["examples"] // nshards)
+    case_seconds = budget.get("case_seconds", 300)
     shrink_budget = 250 if tier == "quick" else 2500
     known = {}
     sigs = getattr(mod, "KNOWN", {})
@@ -188,9 +226,14 @@ def run_hypothesis_shard(mod, tier, seed, shard, nshards, state, sub=None):
             if state.post_fail_evals > shrink_budget:
                 # shrink budget exhausted: replay known failures, pass the rest
                 if h in state.failing_hashes:
-                    raise _Fail()
+                    _raise_fail()
                 return
-        out = run_case(spec)
+        try:
+            with case_alarm(case_seconds):
+                out = run_case(spec)
+        except CaseTimeout:
+            state.stats["case_timeouts"] = state.stats.get("case_timeouts", 0) + 1
+            return
         if out.violations and known:
             keep = []
             for v in out.violations:
@@ -209,14 +252,18 @@ def run_hypothesis_shard(mod, tier, seed, shard, nshards, state, sub=None):
         if out.violations:
             state.fail = (spec, out.violations)
             state.failing_hashes.add(h)
-            raise _Fail()
+            _raise_fail()
 
     try:
         test()
     except _Fail:
         pass
-    except hypothesis.errors.Flaky as e:  # nondeterministic oracle
-        raise HarnessError(f"flaky case: {e}")
+    except hypothesis.errors.Flaky as e:
+        # a failing spec was observed and is recorded (its replay file can be
+        # confirmed independently); without one this is harness trouble
+        if state.fail is None:
+            raise HarnessError(f"flaky case: {e}")
+        state.stats["flaky_during_shrink"] = 1
 
 
 def hash_sub(name):
